@@ -60,6 +60,9 @@ def gen_case(rng, tier, ks=None):
             ops.append(("reopen",))
         else:
             ops.append(("set", k[:-1] if rng.random() < 0.5 else k + b"\x00", b"v"))   # wrong length
+    if big:
+        # 32-byte keys: always read back through from_db and re-open (these cases are the ones that use the constructor defaults)
+        ops += [("fromdb", keys[0]), ("reopen",), ("get", keys[0])]
     ops.append(("root",))
     return {"ks": ks, "default": default, "ops": ops}
 
